@@ -269,6 +269,10 @@ func selectDeflate(extensions []websocketExtension, mode CompressionMode) (*comp
 
 func acceptDeflate(ext websocketExtension, mode CompressionMode) (*compressionOptions, bool) {
 	copts := mode.opts()
+	if hasDuplicateParams(ext.params) {
+		// RFC 7692 section 7: decline an offer with multiple parameters of the same name.
+		return nil, false
+	}
 	for _, p := range ext.params {
 		switch p {
 		case "client_no_context_takeover":
@@ -282,13 +286,37 @@ func acceptDeflate(ext websocketExtension, mode CompressionMode) (*compressionOp
 			continue
 		}
 
-		if strings.HasPrefix(p, "client_max_window_bits=") {
+		if strings.HasPrefix(p, "client_max_window_bits=") && validWindowBits(strings.TrimPrefix(p, "client_max_window_bits=")) {
 			// We can't adjust the deflate window, but decoding with a larger window is acceptable.
 			continue
 		}
 		return nil, false
 	}
 	return copts, true
+}
+
+// validWindowBits reports whether s is a valid value of a max_window_bits
+// parameter: a decimal integer between 8 and 15 without leading zeroes.
+// See https://tools.ietf.org/html/rfc7692#section-7.1.2
+func validWindowBits(s string) bool {
+	switch s {
+	case "8", "9", "10", "11", "12", "13", "14", "15":
+		return true
+	}
+	return false
+}
+
+// hasDuplicateParams reports whether two extension parameters have the same name.
+func hasDuplicateParams(params []string) bool {
+	for i, p := range params {
+		name := strings.SplitN(p, "=", 2)[0]
+		for _, q := range params[:i] {
+			if strings.SplitN(q, "=", 2)[0] == name {
+				return true
+			}
+		}
+	}
+	return false
 }
 
 func headerContainsTokenIgnoreCase(h http.Header, key, token string) bool {
